@@ -175,8 +175,9 @@ def write_evidence(ctx, violations):
         ev['notes'] = ctx.notes
     if ctx.inconclusive:
         ev['inconclusive'] = ctx.inconclusive
-    if REPO != '/repo':
-        # a development run against a scratch worktree (VERIF_REPO): evidence describes /repo only, keep it out of evidence/
+    if REPO != '/repo' or getattr(ctx, 'is_replay', False):
+        # a development run against a scratch worktree (VERIF_REPO), or the replay of one stored behaviour: the evidence file
+        # describes a whole check of /repo, keep these out of evidence/
         edir = os.path.join(VERIF, 'replays')
         os.makedirs(edir, exist_ok=True)
         with open(os.path.join(edir, 'evidence-%s-%s.json' % (ctx.pid, re.sub(r'[^A-Za-z0-9]', '_', REPO))), 'w') as f:
